@@ -101,6 +101,36 @@ def matEq (a b : Matrix) : Bool :=
 def holds (e : Expected) (m : Matrix) (levels : Option (List String)) (kind : String) : Bool :=
   matEq e.matrix m && e.levels == levels && e.kind == kind
 
+/-! "A numeric response is returned unchanged": for a response that is a bare (or back-quoted)
+numeric column the comparison is exact — every returned entry is the rational the frame holds, with
+no tolerance (an integer beyond 2^53 that came back through a float is a different number). -/
+def entryEq : Entry → Entry → Bool
+  | some a, some b => a == b
+  | none, none => true
+  | _, _ => false
+
+def matEqExact (a b : Matrix) : Bool :=
+  a.length == b.length &&
+  (List.zipWith (fun ra rb => ra.length == rb.length && (List.zipWith entryEq ra rb).all id) a b).all id
+
+def isBare : Expr → Bool
+  | .variable _ => true
+  | .quoted _ => true
+  | _ => false
+
+def unchanged (e : Expected) (m : Matrix) : Bool := matEqExact e.matrix m
+
+/-- The array the implementation returned has one row per retained observation and the columns the
+statement names: `[n, #levels]` for a categorical response (one indicator column per level — also
+when there is one level, also when there is one row), `[n, 2]` for `prop` (successes, trials), and
+a single column for a numeric response and for `y[level]` (`[n]`, or `[n, 1]`).  `shape` is the
+numpy shape of `response.design_matrix`; `n` is the row count of the frame after the NA step. -/
+def shapeHolds (e : Expected) (shape : List Nat) : Bool :=
+  let n := e.matrix.length
+  match e.levels with
+  | some ls => shape == [n, ls.length]
+  | none => if e.kind == "proportion" then shape == [n, 2] else (shape == [n] || shape == [n, 1])
+
 /-- the values returned by `response.evaluate_new_data(new)` are the expected trials, one per row -/
 def holdsTrials (expectedCol returned : List Entry) : Bool :=
   matEq (expectedCol.map (fun x => [x])) (returned.map (fun x => [x]))
